@@ -3,6 +3,7 @@ package goat
 import (
 	"context"
 	"fmt"
+	"strings"
 	"time"
 
 	"github.com/rs/zerolog/log"
@@ -309,7 +310,14 @@ func (cc *ClientConn) asStreamer(
 func headersFromContext(ctx context.Context) []*goatorepo.KeyValue {
 	h := []*goatorepo.KeyValue{}
 	if md, ok := metadata.FromOutgoingContext(ctx); ok {
-		h = append(h, internal.ToKeyValue(md)...)
+		// The timeout on the wire is this call's own deadline, never an entry
+		// of the user's metadata (e.g. one a relay copied from the request it
+		// received): the header is reserved, as it is in grpc-go.
+		for _, kv := range internal.ToKeyValue(md) {
+			if strings.ToLower(kv.GetKey()) != "grpc-timeout" {
+				h = append(h, kv)
+			}
+		}
 	}
 	if deadline, ok := ctx.Deadline(); ok {
 		timeout := time.Until(deadline)
